@@ -129,6 +129,9 @@ type c09Scn struct {
 	// select takes either. The harness makes both ready and records which one won: that is the
 	// oracle's outcome of this iteration (accepted, or ended without CONNACK).
 	Race bool
+	// IgnoreCtx: the Dialer does not observe its context while a dial is in progress (like the shipped
+	// NoContextDialer): a dial during which the Connect context is cancelled still succeeds.
+	IgnoreCtx bool
 }
 
 // timeout: WithTimeout is passed (needed for "no CONNACK until the timeout" and for keep-alive)
@@ -152,6 +155,9 @@ func (s *c09Scn) desc() map[string]interface{} {
 	if s.Post {
 		d["disconnect_after_exit"] = true
 	}
+	if s.IgnoreCtx {
+		d["dialer_ignores_its_context"] = true
+	}
 	return d
 }
 
@@ -171,7 +177,7 @@ func (s *c09Scn) coq() string {
 }
 
 func (s *c09Scn) key() string {
-	return s.coq() + fmt.Sprint(s.Base, s.Max, s.Preset, s.UB, s.NoTimeout)
+	return s.coq() + fmt.Sprint(s.Base, s.Max, s.Preset, s.UB, s.NoTimeout, s.IgnoreCtx)
 }
 
 // spec of the waits on the Go side (only used to place a stop inside a wait and to size
@@ -613,7 +619,7 @@ func (r *c09Run) dial(ctx context.Context) (*mqtt.BaseClient, error) {
 		}
 	}
 	o := s.Script[i]
-	if err := ctx.Err(); err != nil {
+	if err := ctx.Err(); err != nil && !s.IgnoreCtx {
 		// the context ended while the dial was in progress
 		r.failurePoint(i)
 		return nil, err
@@ -1024,8 +1030,13 @@ func c09Stopped(script []c09Out, refusedCode *int) []*c09Scn {
 			out = append(out, &c09Scn{Script: append(append([]c09Out{}, sc...), c09Out{Kind: c09DialErr}),
 				Cancel: &c09Stop{n, ph}, Disc: &c09Stop{n + 1, c09PDial}})
 		case ph == c09PDial && sc[n].dialOK():
-			// the Dialer honours its context: a dial during which the context is cancelled fails
-			// (generated with the outcome "dial error")
+			// a Dialer that honours its context fails a dial during which the context is cancelled
+			// (generated with the outcome "dial error"); one that ignores it (NoContextDialer) hands
+			// out a live client although the handshake context is already done
+			out = append(out, &c09Scn{Script: sc, Cancel: &c09Stop{n, ph}, Post: true, IgnoreCtx: true})
+			if noTimeoutOK {
+				out = append(out, &c09Scn{Script: sc, Cancel: &c09Stop{n, ph}, Post: true, IgnoreCtx: true, NoTimeout: true})
+			}
 		default:
 			out = append(out, &c09Scn{Script: sc, Cancel: &c09Stop{n, ph}, Post: true})
 			if early && noTimeoutOK {
@@ -1305,6 +1316,9 @@ func runC09(cfg *runCfg) error {
 		}
 		if s.NoTimeout {
 			stopKinds["connack-withheld-without-connect-timeout"]++
+		}
+		if s.IgnoreCtx {
+			stopKinds["cancel-during-a-dial-that-still-succeeds(dialer-ignores-ctx)"]++
 		}
 		lens[fmt.Sprint(len(s.Script))]++
 		if r.try > 1 {
